@@ -104,12 +104,14 @@ def polyak_cases(rep, rng, dev, tier):
 
 def screening_runs(rep, rng, dev, tier):
     from tdgl.solver.solver import TDGLSolver
-    plans = [(1e-2, 0.1, 0.5), (1e-3, 0.5, 1.0), (1e-4, 0.5, 1.0), (1e-2, 0.02, 0.5), (3e-3, 1.0, 1.0)] if tier == "quick" else \
+    plans = [(1e-2, 0.1, 0.5), (1e-3, 0.5, 1.0), (1e-4, 0.5, 1.0), (1e-2, 0.02, 0.5), (3e-3, 1.0, 1.0), (1e-3, 0.5, 1.0, 1e-10)] if tier == "quick" else \
         [(1e-2, 0.1, 0.5), (1e-3, 0.5, 1.0), (1e-4, 0.5, 1.0), (3e-3, 1.0, 1.0), (1e-3, 0.1, 0.25), (1e-2, 1.0, 0.5)]
     worst_ratio = 0.0
     last_sol = None
     ind_bad = []
-    for tol, alpha, beta in plans:
+    for plan in plans:
+        tol, alpha, beta = plan[:3]
+        drive = plan[3] if len(plan) > 3 else 1.0      # overall strength of field and current (the loop's test is relative)
         it_log = []
         cur_iters = []
         bad = []
@@ -138,7 +140,8 @@ def screening_runs(rep, rng, dev, tier):
             opts = runs.make_options(td, solve_time=0.12 if tol > 2e-4 else 0.05, dt_init=2e-3, dt_max=2e-2, adaptive=True, save_every=5,
                                      include_screening=True, screening_tolerance=tol, screening_step_size=alpha,
                                      screening_step_drag=beta)
-            solver = TDGLSolver(dev, opts, applied_vector_potential=0.8, terminal_currents={"source": 2.0, "drain": -2.0})
+            solver = TDGLSolver(dev, opts, applied_vector_potential=0.8 * drive,
+                                terminal_currents={"source": 2.0 * drive, "drain": -2.0 * drive})
             orig_giv = solver.get_induced_vector_potential
 
             def giv(current_density, A_vals, velocity, tol=tol, alpha=alpha, beta=beta):
